@@ -55,7 +55,10 @@ def cases(tier, seed):
     from checks import c06
     seen = set()
     CAP[0] = 32 if tier == "quick" else 64
-    for model, order, mi in c06.cases("quick", seed):
+    for c6 in c06.cases("quick", seed):
+        if c6[0] == "determinism":
+            continue
+        model, order, mi = c6
         if len(model[1]) > BOUNDS[tier]["generated_models_classes"]:
             continue
         if model in seen:
